@@ -21,3 +21,35 @@ Definition reported_block (st : pstore) (t : txid) : option N :=
   | Some bn => a_get N.eqb bn (p_num st)
   | None => None
   end.
+
+(* ---- every writer of the two maps (op px runs these against the real Storage) ----
+   filter_block writes the header maps only when some transaction matched (ts = the matched transactions, in block order);
+   add_fetched_tx always writes the header maps and records the transaction only when it is not recorded yet;
+   add_fetched_header writes the header maps; rollback_to_block writes none of the three. *)
+Inductive pop :=
+| PX_filter (bh bn : N) (ts : list txid)
+| PX_fetched_tx (bh bn : N) (t : txid)
+| PX_fetched_header (bh bn : N)
+| PX_rollback (to : N).
+
+Definition pstep (st : pstore) (o : pop) : pstore :=
+  match o with
+  | PX_filter bh bn ts => match ts with [] => st | _ :: _ => index_block st (bh, bn, ts) end
+  | PX_fetched_tx bh bn t =>
+      mkPS (match a_get N.eqb t (p_txs st) with Some _ => p_txs st | None => a_put N.eqb t bn (p_txs st) end)
+           (a_put N.eqb bn bh (p_num st))
+  | PX_fetched_header bh bn => mkPS (p_txs st) (a_put N.eqb bn bh (p_num st))
+  | PX_rollback _ => st
+  end.
+
+Definition prun (ops : list pop) : pstore := fold_left pstep ops (mkPS [] []).
+
+(* what an operation records: (block hash, block number, transactions stored with that block) *)
+Definition record_of (o : pop) : list (N * N * list txid) :=
+  match o with
+  | PX_filter bh bn ts => match ts with [] => [] | _ :: _ => [(bh, bn, ts)] end
+  | PX_fetched_tx bh bn t => [(bh, bn, [t])]
+  | PX_fetched_header bh bn => [(bh, bn, [])]
+  | PX_rollback _ => []
+  end.
+Definition records (ops : list pop) : list (N * N * list txid) := concat (map record_of ops).
